@@ -152,6 +152,11 @@ func driverStep(st map[string]interface{}) map[string]interface{} {
 		return map[string]interface{}{"ev": ev, "obj": arg}
 	case "LoadRaw", "LoadPlan":
 		return map[string]interface{}{"ev": ev, "tf": arg}
+	case "NewEmpty":
+		// the chosen form of the empty object: flags and a nil / empty Attrs map (absent: the plain one)
+		if m, ok := arg.(map[string]interface{}); ok && m["k"] == "obj" {
+			return map[string]interface{}{"ev": ev, "null": m["null"], "unk": m["unk"], "nilattrs": m["attrsnil"]}
+		}
 	}
 	return map[string]interface{}{"ev": ev}
 }
